@@ -157,3 +157,13 @@ pub fn only_id() -> Option<usize> {
 pub fn skip_case(id: usize) -> bool {
     matches!(only_id(), Some(o) if o != id)
 }
+
+/// the model a type mentions, through lists and maps — the oracles' own walk (not `Ty::inner_model`, which is part of what
+/// is being judged)
+pub fn model_of(t: &mir::Ty) -> Option<&str> {
+    match t {
+        mir::Ty::Model(n) => Some(n.as_str()),
+        mir::Ty::Array(i) | mir::Ty::HashMap(i) => model_of(i),
+        _ => None,
+    }
+}
